@@ -146,6 +146,96 @@ def case(args):
     return out
 
 
+def size_case(args):
+    """Long batches (page / chunk boundaries of any bulk lookup): n distinct elements, the last ten memoized beforehand."""
+    from .. import audit
+    from ..fixtures import c15fx as fx
+
+    kind, n, api = args
+    top = scratch_dir("c15s")
+    out = {"evaluations": 1, "states": 1, "transitions": n, "traces": 1, "violations": [], "outcomes": ["size|%s|%d|%s" % (kind, n, api)]}
+    try:
+        use(mk_backend(kind, os.path.join(top, "s")))
+        f = fx.b2.partial(7)
+        pre = list(range(max(0, n - 10), n))
+        for x in pre:
+            f(x=x)
+        audit.bodies_reset()
+        bad = None
+        try:
+            if api == "batch":
+                got = f.call_batch([{"x": x} for x in range(n)])
+            else:
+                d = f.map_over_range(x=list(range(n)))
+                got = [d[x] for x in range(n)]
+            wrong = [i for i in range(n) if got[i] != [7, i]]
+            if wrong:
+                bad = ("slot-differs", "batch of %d elements: position %d holds %r, the individual call gives %r" % (n, wrong[0], got[wrong[0]], [7, wrong[0]]))
+        except Exception as e:
+            bad = ("raised", "batch of %d elements raised %r" % (n, e))
+        ran = sorted(b[1][1] for b in audit.bodies())
+        if not bad and ran != list(range(0, max(0, n - 10))):
+            bad = ("body-count", "batch of %d elements with the last ten memoized: bodies ran for %d elements (expected %d); first difference near %s"
+                   % (n, len(ran), max(0, n - 10), next((i for i, (a, b) in enumerate(zip(ran, range(n))) if a != b), len(ran))))
+        if not bad:
+            audit.bodies_reset()
+            for x in range(n):
+                if f(x=x) != [7, x]:
+                    bad = ("store-differs", "after the batch the individual call x=%d gives another value" % x)
+                    break
+            if not bad and audit.bodies():
+                bad = ("store-differs", "after the batch %d elements are still not memoized" % len(audit.bodies()))
+        if bad:
+            out["violations"].append(("%s|%s|size:%s|%s" % (kind, api, "<=64" if n <= 64 else ">64", bad[0]), bad[1] + "\nbackend=%s api=%s" % (kind, api), {"size": [kind, n, api]}))
+    finally:
+        rm(top)
+    return out
+
+
+def nested_case(args):
+    """The batch issued from inside a running memento function vs the same elements called one by one from inside a
+    twin function: same values, same record of the parent (invocations, dependencies), same store - whatever was
+    memoized before, with and without context arguments on the parent."""
+    from .. import audit
+    from ..fixtures import c15fx as fx
+
+    kind, batch, pre, ctx = args
+    top = scratch_dir("c15n")
+    out = {"evaluations": 1, "states": 1, "transitions": len(batch), "traces": 1, "violations": [], "outcomes": []}
+    try:
+        obs = {}
+        for which, parent in (("each", fx.parent_each), ("batch", fx.parent_batch)):
+            b = mk_backend(kind, os.path.join(top, which))
+            use(b)
+            wrap = (lambda f: f.with_context_args(ctx)) if ctx else (lambda f: f)
+            for x in pre:
+                outcome(wrap(fx.b2), 7, x)  # memoized under the context the nested calls will inherit
+            audit.bodies_reset()
+            r = outcome(wrap(parent), batch)
+            ran = sorted(str(bd[1][1]) for bd in audit.bodies() if bd[0] == "b2")
+            mm = wrap(parent).memento(batch)
+            rec = None
+            if mm is not None:
+                rec = ([(i.fn_reference.qualified_name.split(":")[-1], i.arg_hash) for i in mm.invocation_metadata.invocations],
+                       sorted(d.qualified_name.split(":")[-1].replace("parent_batch", "parent").replace("parent_each", "parent") for d in mm.function_dependencies))
+            store = []
+            for x in ALPHA:
+                fra = fx.b2.fn_reference().with_args(7, x, _memento_context_args=ctx)
+                m1 = b.get_memento(fra.fn_reference_with_arg_hash())
+                store.append((x, None if m1 is None else m1.invocation_metadata.result_type.name))
+            obs[which] = {"value": r, "b2-bodies": ran, "parent-record": rec, "store": store}
+        if obs["each"] != obs["batch"]:
+            diff = [k for k in obs["each"] if obs["each"][k] != obs["batch"][k]]
+            sig = "%s|nested|premem:%s|ctx:%s|differs:%s" % (kind, "all" if set(x for x in batch if x != "N") <= set(pre) and pre else ("some" if pre else "none"),
+                                                       "yes" if ctx else "no", "+".join(diff))
+            out["violations"].append((sig, "a batch issued inside a running function differs from element-wise calls in %s:\n batch:        %s\n element-wise: %s\nbackend=%s batch=%r pre-memoized=%r context=%r"
+                                      % (diff, {k: obs["batch"][k] for k in diff}, {k: obs["each"][k] for k in diff}, kind, batch, pre, ctx), {"nested": [kind, batch, pre, ctx]}))
+        out["outcomes"].append("nested|%s|%r|%r|%r" % (kind, batch, pre, ctx))
+    finally:
+        rm(top)
+    return out
+
+
 LOOK = [1, 1.0, True, 0, 0.0, False]  # equal under ==, different argument identity
 
 
@@ -249,6 +339,25 @@ def run(ctx):
                         for api in ("range", "batch"):
                             lt.append((kind, list(batch), list(pre), api))
     ctx.merge(pmap(lookalike_case, lt, chunksize=16))
+    # long batches, and batches issued from inside a running function
+    st = [(kind, n, api) for kind in (("fs",) if not thorough else ("mem", "fs", "fsc")) for n in ((63, 64, 65, 130) if not thorough else (63, 64, 65, 127, 128, 129, 257, 1025))
+          for api in ("batch", "range")]
+    ctx.merge(pmap(size_case, st, chunksize=1))
+    nt = []
+    for L in range(1, (3 if thorough else 2) + 1):
+        for batch in itertools.product([0, 1, "F"] + (["N"] if thorough else []), repeat=L):
+            mem = sorted({x for x in batch if x != "N"}, key=str)
+            for r in range(len(mem) + 1):
+                for pre in itertools.combinations(mem, r):
+                    for kind in ("mem", "fsc") if not thorough else ("mem", "fs", "fsc"):
+                        for c in (None, {"k": 1}):
+                            nt.append((kind, list(batch), list(pre), c))
+    ctx.merge(pmap(nested_case, nt, chunksize=8))
+    ctx.extra["long_batch_cases"] = len(st)
+    ctx.extra["nested_batch_cases"] = len(nt)
+    ctx.rule += (" Plus long batches (63..130 elements, thorough to 1025; the last ten memoized beforehand) and batches issued from "
+                 "inside a running memento function compared with element-wise calls from inside a twin function (values, the "
+                 "parent's recorded invocations and dependencies, store), with and without context arguments.")
     ctx.extra["lookalike_cases"] = len(lt)
     ctx.rule += (" Plus batches of 2-3 elements over look-alike values (1, 1.0, True, 0, ...) that collide under == but are different "
                  "arguments: each runs its own body once and is memoized on its own.")
@@ -258,6 +367,13 @@ def run(ctx):
 
 
 def replay(ctx, art):
+    if "size" in art["artefact"] or "nested" in art["artefact"]:
+        a = art["artefact"]
+        r = size_case(tuple(a["size"])) if "size" in a else nested_case((a["nested"][0], a["nested"][1], a["nested"][2], a["nested"][3]))
+        for v in r["violations"]:
+            print(v[0], "\n", v[1])
+        print("REPLAY property=C15 result=%s" % bool(r["violations"]))
+        return 1 if r["violations"] else 0
     if "lookalike" in art["artefact"]:
         c = art["artefact"]["lookalike"]
         r = lookalike_case((c[0], c[1], c[2], c[3]))
